@@ -5,6 +5,8 @@ import json, os, sys
 sys.path.insert(0, os.path.dirname(os.path.dirname(os.path.abspath(__file__))))
 from sa.loader import Program
 P = Program(sys.argv[1] if len(sys.argv) > 1 else '/repo', canonical=False)
+PC = Program(sys.argv[1] if len(sys.argv) > 1 else '/repo', canonical=True, restore=False)
+from sa.alpha import alpha_form, fingerprints
 out = os.path.join(os.path.dirname(os.path.dirname(os.path.abspath(__file__))), 'sa', 'baseline_funcs.json')
 import ast
 consts = []
@@ -14,5 +16,12 @@ for m, (path, tree, src) in P.mods.items():
             consts += [f'{m}.{t.id}' for t in s.targets if isinstance(t, ast.Name)]
         elif isinstance(s, ast.AnnAssign) and isinstance(s.target, ast.Name):
             consts.append(f'{m}.{s.target.id}')
-json.dump({'functions': sorted(P.funcs), 'constants': sorted(set(consts))}, open(out, 'w'), indent=0)
+import ast as _ast
+alpha = {}
+for q, f in PC.funcs.items():
+    if isinstance(f.node, _ast.Lambda):
+        continue
+    h, names = alpha_form(f.node)
+    alpha[q] = {'alpha': h, 'names': names, 'fp': fingerprints(f.node)}
+json.dump({'functions': sorted(P.funcs), 'constants': sorted(set(consts)), 'locals': alpha}, open(out, 'w'), indent=0)
 print(len(P.funcs), 'functions')
